@@ -1,0 +1,126 @@
+//go:build verif
+
+// Package verif is a bridge that exposes a few internals of fs_db to an
+// external verification harness. It only exists with the "verif" build tag.
+package verif
+
+import (
+	"context"
+	"net"
+
+	"github.com/glebziz/fs_db"
+	"github.com/glebziz/fs_db/config"
+	errorsAdapter "github.com/glebziz/fs_db/internal/adapter/errors"
+	isoLevel "github.com/glebziz/fs_db/internal/adapter/iso_level"
+	"github.com/glebziz/fs_db/internal/app"
+	"github.com/glebziz/fs_db/internal/db/badger"
+	"github.com/glebziz/fs_db/internal/di"
+	"github.com/glebziz/fs_db/internal/model"
+	"github.com/glebziz/fs_db/internal/model/core"
+	"github.com/glebziz/fs_db/internal/model/sequence"
+	"github.com/glebziz/fs_db/internal/model/transactor"
+	store "github.com/glebziz/fs_db/internal/proto"
+	fileRepo "github.com/glebziz/fs_db/internal/repository/file"
+	"github.com/glebziz/fs_db/internal/utils/async"
+	"github.com/glebziz/fs_db/internal/utils/grpc/interceptors/server"
+	"github.com/glebziz/fs_db/internal/utils/vhook"
+	"github.com/glebziz/fs_db/internal/utils/wpool"
+	inlineDb "github.com/glebziz/fs_db/pkg/inline/db"
+)
+
+// Aliases of internal types.
+type (
+	File           = model.File
+	FileFilter     = model.FileFilter
+	Dir            = model.Dir
+	Seq            = sequence.Seq
+	IsoLevel       = model.TxIsoLevel
+	CoreTx         = core.Transaction
+	FileNode       = core.Node[model.File]
+	Pool           = wpool.Pool
+	PoolOptions    = wpool.Options
+	PoolEvent      = wpool.Event
+	PoolState      = wpool.VerifState
+	Provider       = badger.Provider
+	QueryManager   = badger.QueryManager
+	Item           = badger.Item
+	TransactionFn  = transactor.TransactionFn
+	FileRepo       = fileRepo.Repo
+	HookHandler    = vhook.Handler
+	WriteFaultFn   = vhook.WriteFaultFn
+	DiskFreeFn     = vhook.DiskFreeFn
+	Container      = di.Container
+	App            = app.VerifApp
+	GrpcIsoLevel   = store.TxIsoLevel
+	GrpcStoreError = store.Error
+)
+
+const (
+	MainTxId  = model.MainTxId
+	TxIdMdKey = server.TxIdKey
+)
+
+// Hook installation.
+func SetHandler(h HookHandler)     { vhook.SetHandler(h) }
+func SetWriteFault(f WriteFaultFn) { vhook.SetWriteFault(f) }
+func SetDiskFree(f DiskFreeFn)     { vhook.SetDiskFree(f) }
+
+// InlineContainer returns the DI container of an inline handle.
+func InlineContainer(d fs_db.DB) *Container { return inlineDb.VerifContainer(d) }
+
+// Collect runs one pass of the old-version collector, exactly what the
+// scheduled job calls.
+func Collect(ctx context.Context, c *Container) error { return c.Cleaner().DeleteOld(ctx) }
+
+// ContainerPool returns the worker pool of a container.
+func ContainerPool(c *Container) *Pool { return c.Pool() }
+
+// DirCandidates returns the directories currently offered for writing.
+func DirCandidates(ctx context.Context, c *Container) ([]Dir, error) { return c.DirRepo().Get(ctx) }
+
+// WithTx returns a context naming a transaction id (inline client).
+func WithTx(ctx context.Context, txId string) context.Context { return model.StoreTxId(ctx, txId) }
+
+// TxIdOf returns the transaction id carried by ctx.
+func TxIdOf(ctx context.Context) string { return model.GetTxId(ctx) }
+
+// NewApp builds the gRPC server application.
+func NewApp(ctx context.Context, cfg config.Config) (*App, error) { return app.VerifNew(ctx, cfg) }
+
+// Serve is a helper so harnesses need not import net for the signature.
+func Serve(ctx context.Context, a *App, lis net.Listener) error { return a.Serve(ctx, lis) }
+
+// NewPool creates a stand-alone worker pool.
+func NewPool(o PoolOptions) *Pool { return wpool.New(o) }
+
+// NewFileRepo creates the version record repository over a provider.
+func NewFileRepo(p Provider) *FileRepo { return fileRepo.New(p) }
+
+// NewFileNode creates a list node holding f.
+func NewFileNode(f File) *FileNode { return new(FileNode).SetV(f) }
+
+// GrpcError maps a server side error to a gRPC status error.
+func GrpcError(err error) error { return errorsAdapter.Error(err) }
+
+// ClientError maps a gRPC status error to a client side error.
+func ClientError(err error) error { return errorsAdapter.ClientError(err) }
+
+// IsoToGrpc and IsoFromGrpc expose the isolation level adapters.
+func IsoToGrpc(l IsoLevel) GrpcIsoLevel   { return isoLevel.ConvertToGrpc(l) }
+func IsoFromGrpc(l GrpcIsoLevel) IsoLevel { return isoLevel.Convert(l) }
+
+// SeqNext draws the next global sequence number.
+func SeqNext() Seq { return sequence.Next() }
+
+// ReadWriter is the pipe behind Create.
+type ReadWriter interface {
+	Read(p []byte) (int, error)
+	Write(p []byte) (int, error)
+	Close() error
+	SetError(err error)
+	Add(delta int)
+	Done()
+}
+
+// NewReadWriter creates the pipe behind Create.
+func NewReadWriter() ReadWriter { return async.NewReadWriter() }
